@@ -267,6 +267,23 @@ FoldPassive(ord, done, labs, tradedBySel, book, pt, minbsp) ==    \* -> <<ord', 
                  IN FoldPassive([ord EXCEPT ![lab] = r[1]], IF r[3] THEN done \cup {lab} ELSE done,
                                 Tail(labs), [tradedBySel EXCEPT ![sk] = r[2]], book, pt, minbsp)
 
+
+\* groups of live orders that share one working copy of the traded ladders
+\* (SimulatedMiddleware._process_simulated_orders: per strategy when isolation is on, else one)
+GroupsOf(ord, mid, iso) ==
+    IF iso THEN {{o \in DOMAIN ord : ord[o].mid = mid /\ ord[o].inbl /\ ord[o].strat = sn /\ ord[o].status \in MatchSt} :
+                   sn \in {ord[x].strat : x \in {y \in DOMAIN ord : ord[y].mid = mid}}}
+    ELSE {{o \in DOMAIN ord : ord[o].mid = mid /\ ord[o].inbl /\ ord[o].live /\ ord[o].status \in MatchSt}}
+
+\* one whole matching pass over a market
+MwAll(ord, mid, iso, tradedBySel, book, pt, minbsp) ==
+    LET RECURSIVE go(_, _)
+        go(o, gs) == IF gs = {} THEN o
+                     ELSE LET g == CHOOSE x \in gs : TRUE
+                              res == FoldPassive(o, {}, SortOrders(o, g), tradedBySel, book, pt, minbsp)
+                          IN go(res[1], gs \ {g})
+    IN go(ord, GroupsOf(ord, mid, iso))
+
 \* traded ladders as functions price -> size, from the logged sequences of <<price, size>>
 LadderFn(q) == [p \in {q[i][1] : i \in DOMAIN q} |-> q[CHOOSE i \in DOMAIN q : q[i][1] = p][2]]
 
